@@ -295,13 +295,79 @@ def gen_mem_program(fn, contract, db, inputs_bytes, n_value, misalign=0):
     return '\n'.join(lines) + '\n'
 
 
+def gen_gs_program(fn, contract, db, ib, n_value, len_value):
+    """gather / scatter: the real function on the counterexample's indices, count and (scatter) values.  The object has the
+    counterexample's number of elements and ENDS at an inaccessible page (start preceded by one); for the far-index twin it is a
+    sparse MAP_NORESERVE mapping in which only the addressed elements carry a per-lane pattern.  A fault, a lane that is not the
+    addressed element (gather), an addressed element that is not the lane's value or a changed other element (scatter) confirms."""
+    S = db['structs']
+    g = contract.gs
+    ect, W = g['elem'], g['W']
+    cxxe = families.CXX_ELEM[families.CT2ELEM[ect]]
+    icxx = {8: 'std::int8_t', 16: 'std::int16_t', 32: 'std::int32_t', 64: 'std::int64_t'}[g['ibits']]
+    esz = sizeof(ect, S)
+    L = W + 1
+    lines = ['// generated replay (gather / scatter): real AVEL code, object flush against PROT_NONE pages',
+             '#include <avel/Avel.hpp>', '#include <cstring>', '#include <cstdio>', '#include <cstdint>', '#include <csignal>', '#include <csetjmp>',
+             '#include <sys/mman.h>', '#include <unistd.h>']
+    lines.append('static sigjmp_buf jb; static void on_fault(int) { siglongjmp(jb, 1); }')
+    lines.append('int main() {')
+    lines.append('  int fails = 0; const std::size_t pg = (std::size_t)sysconf(_SC_PAGESIZE);')
+    lines.append('  std::signal(SIGSEGV, on_fault); std::signal(SIGBUS, on_fault);')
+    lines.append('  const std::size_t len = %dull; const bool far_object = %s;' % (len_value, 'true' if g['far'] else 'false'))
+    lines.append('  static const unsigned char init_b[] = {%s};' % hexbytes(ib.get('init', bytes(L * esz))))
+    lines.append('  static const unsigned char idx_b[] = {%s};' % hexbytes(ib['idx']))
+    lines.append('  %s idx_real; static_assert(sizeof(idx_real) == sizeof(idx_b), "index vector size"); std::memcpy(&idx_real, idx_b, sizeof idx_real);' % cxx_type(g['it'], S))
+    lines.append('  %s idx[%d]; static_assert(sizeof(idx) == sizeof(idx_b), "index lanes"); std::memcpy(idx, idx_b, sizeof idx);' % (icxx, W))
+    if g['kind'] == 'scatter':
+        lines.append('  static const unsigned char v_b[] = {%s};' % hexbytes(ib['v']))
+        lines.append('  %s v_real; static_assert(sizeof(v_real) == sizeof(v_b), "value vector size"); std::memcpy(&v_real, v_b, sizeof v_real);' % cxx_type(g['vt'], S))
+    lines.append('  const std::uint32_t n_in = %du; const std::uint32_t cnt = n_in < %du ? n_in : %du;' % (n_value, W, W))
+    lines.append('  for (std::uint32_t i = 0; i < cnt; i++) if (idx[i] < 0 || (std::uint64_t)idx[i] >= len) { std::printf("REPLAY: counterexample outside the pre-condition (index %lld, %llu elements)\\n", (long long)idx[i], (unsigned long long)len); return 0; }')
+    lines.append('  for (int placement = 0; placement < 2; placement++) {')
+    lines.append('    const std::size_t bytes = len * sizeof(%s); const std::size_t span = (bytes + pg - 1) / pg * pg + pg;' % cxxe)
+    lines.append('    unsigned char* region = (unsigned char*)mmap(0, span + 2 * pg, PROT_NONE, MAP_PRIVATE | MAP_ANONYMOUS | MAP_NORESERVE, -1, 0);')
+    lines.append('    if (region == (unsigned char*)MAP_FAILED) { std::printf("REPLAY-SKIPPED: cannot reserve %llu bytes of address space\\n", (unsigned long long)span); return 3; }')
+    lines.append('    mprotect(region + pg, span, PROT_READ | PROT_WRITE);')
+    lines.append('    unsigned char* base = placement == 0 ? region + pg + span - bytes : region + pg;      // the object ends (placement 0) / starts (placement 1) at an inaccessible page')
+    lines.append('    %s* p = (%s*)base;' % (cxxe, cxxe))
+    lines.append('    if (!far_object) std::memcpy(base, init_b, bytes);')
+    if g['kind'] == 'gather':
+        lines.append('    else for (std::uint32_t i = 0; i < cnt; i++) std::memset((unsigned char*)&p[idx[i]], 0xA1 + 7 * (int)i, sizeof(%s));' % cxxe)
+        lines.append('    unsigned char want[%d][sizeof(%s)]; std::memset(want, 0, sizeof want);' % (W, cxxe))
+        lines.append('    for (std::uint32_t i = 0; i < cnt; i++) std::memcpy(want[i], &p[idx[i]], sizeof(%s));' % cxxe)
+    else:
+        lines.append('    unsigned char vl[%d][sizeof(%s)]; static_assert(sizeof(vl) == sizeof(v_b), "value lanes"); std::memcpy(vl, v_b, sizeof vl);' % (W, cxxe))
+        # far object: its contents are arbitrary in the proof; make every addressed element differ from the value it is to receive
+        lines.append('    if (far_object) for (std::uint32_t i = 0; i < cnt; i++) for (std::size_t b = 0; b < sizeof(%s); b++) ((unsigned char*)&p[idx[i]])[b] = (unsigned char)~vl[i][b];' % cxxe)
+    call = g['call'].replace('{0}', 'p').replace('{1}', 'idx_real' if g['kind'] == 'gather' else 'v_real')
+    call = call.replace('{2}', 'n_in' if g['kind'] == 'gather' else 'idx_real').replace('{3}', 'n_in')
+    lines.append('    if (sigsetjmp(jb, 1) == 0) {')
+    if g['kind'] == 'gather':
+        lines.append('      auto ret_real = %s;' % call)
+        lines.append('      unsigned char got[%d][sizeof(%s)]; static_assert(sizeof(got) == sizeof(ret_real), "result lanes"); std::memcpy(got, &ret_real, sizeof got);' % (W, cxxe))
+        lines.append('      for (int i = 0; i < %d; i++) if (std::memcmp(got[i], want[i], sizeof(%s)) != 0) { std::printf("ENSURES FAILED: gather lane %%d is not %%s\\n", i, (std::uint32_t)i < cnt ? "the addressed element" : "zero (inactive lane)"); fails++; }' % (W, cxxe))
+    else:
+        lines.append('      %s;' % call)
+        lines.append('      for (std::uint32_t i = 0; i < cnt; i++) if (std::memcmp(&p[idx[i]], vl[i], sizeof(%s)) != 0) { std::printf("ENSURES FAILED: scatter element of lane %%u does not hold the lane\'s value\\n", i); fails++; }' % cxxe)
+        lines.append('      if (!far_object) for (std::size_t j = 0; j < len; j++) { bool hit = false; for (std::uint32_t i = 0; i < cnt; i++) hit = hit || (std::uint64_t)idx[i] == j;')
+        lines.append('        if (!hit && std::memcmp(&p[j], init_b + j * sizeof(%s), sizeof(%s)) != 0) { std::printf("ENSURES FAILED: scatter changed element %%llu, which no active lane addresses\\n", (unsigned long long)j); fails++; } }' % (cxxe, cxxe))
+    lines.append('    } else { std::printf("FAULT: the call touched memory outside the object (%llu elements %s an inaccessible page)\\n", (unsigned long long)len, placement == 0 ? "ending at" : "starting at"); fails++; }')
+    lines.append('    munmap(region, span + 2 * pg);')
+    lines.append('  }')
+    lines.append('  std::printf(fails ? "REPLAY: property violated on the real code (%d)\\n" : "REPLAY: real code satisfies the contract on this input\\n", fails);')
+    lines.append('  return fails ? 1 : 0;')
+    lines.append('}')
+    return '\n'.join(lines) + '\n'
+
+
 def old_subst_mem(expr, pn, ect):
     """__CPROVER_old(p[i]) -> the byte image saved before the call"""
     cxxe = families.CXX_ELEM[families.CT2ELEM[ect]]
     return re.sub(r'__CPROVER_old\(%s\[(\d+)\]\)' % re.escape(pn), lambda m: '(((%s*)(before + pg + (base - (region + pg))))[%s])' % (cxxe, m.group(1)), expr)
 
 
-def build_and_run(program, cfg, workdir, ubsan=True):
+def build_and_run(program, cfg, workdir, ubsan=True, levels=('-O1',)):
     os.makedirs(workdir, exist_ok=True)
     src = os.path.join(workdir, 'replay.cpp')
     exe = os.path.join(workdir, 'replay')
@@ -311,8 +377,10 @@ def build_and_run(program, cfg, workdir, ubsan=True):
     built = 0
     # two builds of the same program: g++ -O1 (AVEL's primary compiler; value-level effects of UB show up here) and
     # clang++ -O1 (its UBSan sees promoted-operand overflows that GCC folds away before instrumenting)
-    for cc in ('g++', 'clang++'):
-        cmd = [cc] + flags + ['-O1', '-g', '-D_Bool=bool', '-I' + os.path.join(P.REPO, 'include'), '-I' + os.path.join(P.ROOT, 'models'),
+    # (memory-footprint replays of gather / scatter add -O0 builds: a read whose value is then masked away is dead code to the
+    # optimiser, but it is an access of the abstract machine all the same, and the property speaks about accesses)
+    for cc, lvl in [(c, l) for l in levels for c in ('g++', 'clang++')]:
+        cmd = [cc] + flags + [lvl, '-g', '-D_Bool=bool', '-I' + os.path.join(P.REPO, 'include'), '-I' + os.path.join(P.ROOT, 'models'),
                               '-I' + os.path.join(P.ROOT, 'spec'), '-Wno-attributes', '-fno-strict-aliasing', '-w']
         if ubsan:
             cmd += ['-fsanitize=undefined']
@@ -327,7 +395,7 @@ def build_and_run(program, cfg, workdir, ubsan=True):
         except subprocess.TimeoutExpired:
             return {'status': 'confirmed', 'output': '[%s] replay did not terminate within 60 s (hang)' % cc, 'exit': None}
         out = (r.stdout + r.stderr)[-3000:]
-        outs.append('[%s -O1 -fsanitize=undefined]\n%s' % (cc, out))
+        outs.append('[%s %s%s]\n%s' % (cc, lvl, ' -fsanitize=undefined' if ubsan else '', out))
         # UB reports count only when they are located in AVEL's own headers (not in the generated harness)
         ub = [l for l in out.splitlines() if 'runtime error' in l and '/include/avel/' in l]
         if r.returncode != 0 or ub:
@@ -457,6 +525,34 @@ def record_and_replay(prop, ob, db, sc, do_replay=True):
         res = build_and_run(prog, ob.cfgs[0], sc.path('replay-' + tag), ubsan=False) if do_replay else {'status': 'not-executed', 'output': 'not executed in the run that recorded it (replay cap reached): run `python3 run.py --replay <this file>`'}
         rec['replay'] = res
         status = res['status']
+    elif inputs is not None and getattr(ob.contract, 'gs', None):
+        try:
+            g = ob.contract.gs
+            fn = ob.fn
+            ib = {}
+            ivar, vvar = ('a1', None) if g['kind'] == 'gather' else ('a2', 'a1')
+            ib['idx'] = merge_assignments(ivar, inputs.get(ivar, {}), g['it'], S)
+            if vvar:
+                ib['v'] = merge_assignments(vvar, inputs.get(vvar, {}), g['vt'], S)
+            if not g['far']:
+                ib['init'] = to_bytes(inputs.get('init', {}).get('init'), '%s[%d]' % (g['elem'], g['W'] + 1), S)
+            nv = inputs.get('n_in', {}).get('n_in', {})
+            n_value = int(nv.get('bin'), 2) if nv and nv.get('bin') else 0
+            if g.get('N') is not None:
+                n_value = g['N']
+            lv = inputs.get('len_in', {}).get('len_in', {})
+            len_value = int(lv.get('bin'), 2) if lv and lv.get('bin') else g['W'] + 1
+            rec['inputs_hex'] = {k: v.hex() for k, v in ib.items()}
+            rec['n'] = n_value
+            rec['object_elements'] = len_value
+            prog = gen_gs_program(fn, ob.contract, db, ib, n_value, len_value)
+            rec['program'] = prog
+            res = build_and_run(prog, ob.cfgs[0], sc.path('replay-' + tag), ubsan=False, levels=('-O1', '-O0')) if do_replay else {'status': 'not-executed', 'output': 'not executed in the run that recorded it (replay cap reached): run `python3 run.py --replay <this file>`'}
+            rec['replay'] = res
+            status = res['status']
+        except (ValueError, KeyError, TypeError) as e:
+            rec['replay'] = {'status': 'generator-error', 'output': str(e)}
+            status = 'no-input'
     elif inputs is not None and ob.contract.cxx:
         try:
             ib = {}
